@@ -565,6 +565,10 @@ func sortedBeforeUse(c *core.Ctx, info *types.Info, d *ast.FuncDecl, rs *ast.Ran
 		if !after || !usesObj(info, s, slice) {
 			continue
 		}
+		// a statement that only asks how many were collected (len/cap, comparison with nil) does not depend on the order
+		if onlyCounts(info, s, slice) {
+			continue
+		}
 		// first mention: must be a sort call with the slice as first argument
 		if es, ok := s.(*ast.ExprStmt); ok {
 			if ce, ok := es.X.(*ast.CallExpr); ok {
@@ -577,6 +581,42 @@ func sortedBeforeUse(c *core.Ctx, info *types.Info, d *ast.FuncDecl, rs *ast.Ran
 	}
 	// never used again in this block: used by an enclosing scope? treat as unsorted escape if returned via named result
 	return "it is not sorted in the enclosing block", false
+}
+
+// onlyCounts: every mention of the slice in s is the argument of len()/cap() or an operand of a comparison with nil.
+func onlyCounts(info *types.Info, s ast.Node, slice types.Object) bool {
+	allowed := map[*ast.Ident]bool{}
+	ast.Inspect(s, func(n ast.Node) bool {
+		switch x := n.(type) {
+		case *ast.CallExpr:
+			if id, ok := ast.Unparen(x.Fun).(*ast.Ident); ok && (id.Name == "len" || id.Name == "cap") && len(x.Args) == 1 {
+				if _, isB := info.Uses[id].(*types.Builtin); isB {
+					if a, ok := ast.Unparen(x.Args[0]).(*ast.Ident); ok {
+						allowed[a] = true
+					}
+				}
+			}
+		case *ast.BinaryExpr:
+			if x.Op == token.EQL || x.Op == token.NEQ {
+				for _, pair := range [][2]ast.Expr{{x.X, x.Y}, {x.Y, x.X}} {
+					if tv, ok := info.Types[pair[1]]; ok && tv.IsNil() {
+						if a, ok := ast.Unparen(pair[0]).(*ast.Ident); ok {
+							allowed[a] = true
+						}
+					}
+				}
+			}
+		}
+		return true
+	})
+	ok := true
+	ast.Inspect(s, func(n ast.Node) bool {
+		if id, isId := n.(*ast.Ident); isId && info.ObjectOf(id) == slice && !allowed[id] {
+			ok = false
+		}
+		return ok
+	})
+	return ok
 }
 
 // M2: both diagnostic sinks sort by (file, line, column, message) — a total order on
